@@ -465,7 +465,10 @@ pub fn evaluate(ctx: Context, expr: &Expr) -> Result<Val> {
 			let field = evaluate(ctx, &bin.lhs)?;
 			Val::Bool(sup_this.field_in_super(field.to_string()?))
 		}
-		BinaryOp(bin) => evaluate_binary_op_special(ctx, &bin.lhs, bin.op, &bin.rhs)?,
+		// Long operator chains (`a + b + c + ...`) are parsed iteratively into a deep tree
+		BinaryOp(bin) => ensure_sufficient_stack(|| {
+			evaluate_binary_op_special(ctx, &bin.lhs, bin.op, &bin.rhs)
+		})?,
 		UnaryOp(o, v) => evaluate_unary_op(*o, &evaluate(ctx, v)?)?,
 		Var(name) => in_frame(
 			CallLocation::new(&name.span),
